@@ -248,6 +248,11 @@ def _execute_inner(setup, schedule, rng, record, TrajectoryStore):
         probes['refusals_seen'] = 1
     if any(ev[1].startswith('lock.block') for ev in sched.events):
         probes['blocked_on_lock'] = 1
+    if sched.opcode_events:
+        probes['opcode_preemption_points'] = sched.opcode_events     # counted by the tracer itself
+    nf = sum(1 for e in sched.events if e[1] == 'fork')
+    if nf:
+        probes['forks'] = nf
     return trace, violation, probes, sched, events, inside
 
 
@@ -386,7 +391,7 @@ def simplifiers(op):
 
 
 def required_probes(prop, tier):
-    return ['both_threads_inside_constructor', 'owners_1', 'refusals_seen']
+    return ['both_threads_inside_constructor', 'owners_1', 'refusals_seen', 'opcode_preemption_points', 'forks']
 
 
 def evidence_info(prop):
@@ -398,7 +403,10 @@ def evidence_info(prop):
         'time_note': 'no clock involved; schedule steps are the only notion of time',
         'components': {
             'real': ['AEIC TrajectoryStore constructor/close (in-memory stores: no HDF5 call)', 'real OS threads'],
-            'simulated': ['thread scheduler (baton passing at sys.settrace line/opcode events in trajectories/store.py)',
+            'simulated': ['thread scheduler (baton passing at sys.settrace line events in trajectories/store.py and, in 30 % '
+                          'of the quick and 40 % of the thorough runs, at opcode events inside __init__; the probe '
+                          'opcode_preemption_points is counted by the tracer itself)',
+                          'forks of the process from inside a thread (child exits at once)',
                           'locks created by AEIC code (simulator-aware, installed before import)'],
         },
         'fault_kinds': [],
